@@ -11,19 +11,29 @@ HARNESS_BIN = "c18"
 NCASES = {"quick": 9000, "thorough": 200000}
 CASE_TIMEOUT = {"quick": 30, "thorough": 120}
 
-LEVEL_TEXT = ("Machine-checked Coq theorems for all inputs: the Stern-Brocot recursion that specifies simplest_in returns a fraction "
-              "strictly inside the interval whose numerator and denominator are both minimal among all fractions inside (hence no "
-              "simpler one exists), and never runs out of fuel; the as-is model of Repr::simplest_in (sign dispatch, swap, two-sided "
-              "continued-fraction loop with its convergent accumulators) equals that specification; the Farey mediant walk keeps "
-              "b*c-a*d=1 and left<x<right, terminates within limit+1 steps, and its exit pair are the neighbours of x in F_limit; "
-              "next_up/next_down/nearest models meet their specifications; is_simpler_than is the documented strict total order. "
-              "The float-side (rounding intervals of f32/f64/FBig) is specified executably and compared on every run; its open "
+LEVEL_TEXT = ("Machine-checked Coq theorems for all inputs: the Stern-Brocot recursion that specifies simplest_in returns a canonical "
+              "fraction strictly inside the interval whose numerator and denominator are both minimal among all fractions inside "
+              "(hence nothing inside is simpler) and never runs out of fuel; the as-is model of Repr::simplest_in (sign dispatch "
+              "incl. zero end points, abs, swap, equal end points, two-sided continued-fraction loop with its convergent "
+              "accumulators, the debug assertion, reduce) equals that specification for every pair of end points; the Farey mediant "
+              "walk of farey_neighbors keeps b*c-a*d=1 and left<=x<right, its reduce() is the identity, it stops within limit+1 "
+              "steps and its exit pair are the neighbours of x in F_limit; the models of next_up/next_down (1/(limit^2+1) nudge, "
+              "split_at_point, IBig+RBig) return the successor/predecessor in F_limit, nearest returns Exact iff the denominator "
+              "fits and otherwise a neighbour that no element of F_limit beats, with the sign of result-self; limit 0 is the "
+              "documented panic; is_simpler_than is the documented lexicographic strict total order. Float side: the selection "
+              "step (open-interval optimum, then the optional end points) returns THE simplest canonical fraction of the "
+              "interval; the code after error_bounds / inside impl_simplest_from_float! is exactly that step; and outside the "
+              "open finding classes the as-is model of simplest_from_float (normalisation, ErrorBounds of the six modes, f-+bound) "
+              "equals the specification for every base >= 2, mode, precision, significand and exponent, likewise the f32/f64 "
+              "macro for every format and bit pattern with ulp <= 1 that is not a normal power of two (partial there). The open "
               "defects are modelled as-is and refuted by witnesses.")
 LEVEL_NOTE = ("Trusted: Coq kernel, extraction (FastZ.v), zarith, OCaml driver, Rust harness. Value level (not word level): IBig/UBig "
               "arithmetic, Repr::cmp, RBig add/reduce and the exact FBig add/sub that forms the bounds are taken as Z/Q mathematics "
-              "(C01/C02/C04/C03's business) and tied by the correspondence run. The statement 'the specified interval is exactly the "
-              "preimage of the float under its rounding rule' is checked per case against the shared rounding specification "
-              "spec_round (end points and result are re-rounded in the oracle), not proved in general.")
+              "(C01/C02/C04/C03's business) and tied by the correspondence run. NOT proved in general, only re-checked on every case "
+              "by the oracle against the shared rounding specification spec_round: that the specified rounding interval "
+              "(float_interval_spec / ieee_interval_spec) is exactly the preimage of the float under its rounding rule (each end "
+              "point is included iff it rounds to the float, and the specified answer rounds to the float). Also only compared: "
+              "f32/f64 at normal powers of two (the code's lower bound is ulp/2 instead of ulp/4; answers agree on every run).")
 TECHNIQUE = "Coq proof (Stern-Brocot minimality, Farey invariant) + as-is models + extracted-spec correspondence run"
 RULE = ("cases = API x input class. simplest_in: end points equal / swapped / both negative / sign-straddling / zero or integer "
         "end points / adjacent convergents of one continued fraction (deep two-sided descent, exact-division branch) / "
@@ -45,7 +55,7 @@ TRUSTED_BASE = [
     "OCaml 4.13.1 + zarith 1.12, oracle/common.ml, oracle/driver_c18.ml; Rust harness harness/src/bin/c18.rs",
     "value-level modelling of IBig/UBig/Repr::cmp/RBig::add/reduce and of the exact FBig add/sub forming the rounding bounds",
     "is_simpler_than is transcribed by hand (translate.py does not emit RatioSmall.v yet)",
-    "Float/RoundSpec.v spec_round as the meaning of 'rounds to' in the per-case self-check of the float rounding intervals",
+    "Float/RoundSpec.v spec_round as the meaning of 'rounds to' in the per-case self-check of the FBig and IEEE rounding intervals (round_to_prec, ieee_round)",
 ]
 ASSUMPTIONS = [
     "RBig::from_parts / numerator() / denominator() and FBig::from_repr transport values faithfully (raw words, no parser)",
